@@ -208,6 +208,26 @@ package scale
 //@   requires sp > 0 && f*sp >= lo && l*sp <= hi && 0 <= i && i <= l - f
 //@   ensures lo <= (f + i)*sp && (f + i)*sp <= hi && (f + i)*sp < (f + i + 1)*sp
 
+// The spacing of a level is an integer multiple of the spacing of the level
+// below (x5 / x2 alternating for the default base, x1 / xBase otherwise), so
+// every tick of a level is also a tick position of the level below.
+//@ lemma lsp_divides(s Linear, l int)
+//@   model real
+//@   requires s.Base == 0 || s.Base >= 2
+//@   ensures l % 2 != 0 ==> lsp(s, l) == lsp(s, l-1) * (s.Base == 0 ? 5 : 1)
+//@   ensures l % 2 == 0 ==> lsp(s, l) == lsp(s, l-1) * (s.Base == 0 ? 2 : s.Base)
+
+// ... and it lies between the first and the last tick of the level below:
+// a multiple m*k of the finer spacing sp that is inside [lo, hi] has its index
+// between the first index f and the last index l of the finer level (the
+// ticks (f-1)*sp and (l+1)*sp are outside, as spacingAtLevel [complete] says). With lsp_divides: every major tick is
+// also a minor tick.
+//@ lemma ticks_nested(sp real, k int, m int, f int, l int, lo real, hi real)
+//@   model real
+//@   requires sp > 0 && lo <= (m*k)*sp && (m*k)*sp <= hi
+//@   requires (f - 1)*sp < lo && hi < (l + 1)*sp
+//@   ensures f <= m*k && m*k <= l
+
 //@ func linearTicker.CountTicks
 //@   model real
 //@   dispatch
